@@ -33,6 +33,7 @@ fn pm(target: [u8; 20], seq: i64, sig0: u8, cas: Option<i64>) -> PutRequestSpeci
 }
 
 //@ ob: C17.O1
+//@ also: C06
 //@ rss: 6.3
 //@ time: 174
 //@ tier: quick
